@@ -29,3 +29,4 @@ open UtilModel UtilModel.RefCount
 #print axioms RefCount.rel_hidden_obs
 #print axioms RefCount.step_relTh
 #print axioms RefCount.rel_eventually_obs
+#print axioms RefCount.c08_obs
